@@ -244,7 +244,8 @@ struct Node : Base {
 	template <typename C>
 	void planEdit(C& c, Probe& p) {
 		if (p.passive || !p.chance(p.k.pPlanInCb)) return;
-		vhPlanAppend(c.plan(), p, regionOfState(ID), ID);
+		if (p.next() % 5 == 0) planRemove(c.plan(), p, regionOfState(ID), (int)(p.next() % 4), ID);
+		else vhPlanAppend(c.plan(), p, regionOfState(ID), ID);
 	}
 #else
 	template <typename C> void planEdit(C&, Probe&) {}
